@@ -1,3 +1,187 @@
 package main
 
-func selftestModel() int { return 0 }
+import (
+	"crypto/ed25519"
+	"encoding/hex"
+	"encoding/json"
+	"fmt"
+	"os"
+	"path/filepath"
+	"sort"
+	"strings"
+
+	"github.com/biscuit-auth/biscuit-go/v2/parser"
+
+	"bsim/lower"
+	"bsim/ref"
+)
+
+type sampleFile struct {
+	RootPublicKey string `json:"root_public_key"`
+	TestCases     []struct {
+		Filename string `json:"filename"`
+		Token    []struct {
+			Code string `json:"code"`
+		} `json:"token"`
+		Validations map[string]struct {
+			Result struct {
+				Ok  *int `json:"Ok"`
+				Err *struct {
+					Format      json.RawMessage `json:"Format"`
+					FailedLogic *struct {
+						Unauthorized *struct {
+							Policy map[string]int `json:"policy"`
+							Checks []map[string]struct {
+								BlockID int `json:"block_id"`
+								CheckID int `json:"check_id"`
+							} `json:"checks"`
+						} `json:"Unauthorized"`
+						InvalidBlockRule json.RawMessage `json:"InvalidBlockRule"`
+					} `json:"FailedLogic"`
+				} `json:"Err"`
+			} `json:"result"`
+			AuthorizerCode string `json:"authorizer_code"`
+		} `json:"validations"`
+	} `json:"testcases"`
+}
+
+// selftestModel validates the reference model (wire reader, chain walk,
+// decision procedure, expression evaluator) against the sample tokens and the
+// verdicts recorded in the repository's samples.json. A disagreement is exit 2.
+func selftestModel() int {
+	dir := filepath.Join(envOr("BSIM_REPO_DIR", "/repo"), "samples", "data", "current")
+	raw, err := os.ReadFile(filepath.Join(dir, "samples.json"))
+	if err != nil {
+		fmt.Println("cannot read samples:", err)
+		return 2
+	}
+	var sf sampleFile
+	if err := json.Unmarshal(raw, &sf); err != nil {
+		fmt.Println("cannot parse samples.json:", err)
+		return 2
+	}
+	rootB, _ := hex.DecodeString(sf.RootPublicKey)
+	root := ed25519.PublicKey(rootB)
+	prs := parser.New()
+	bad, nChain, nContent, nVerdict := 0, 0, 0, 0
+	fail := func(f string, a ...interface{}) {
+		bad++
+		fmt.Printf("MODEL DISAGREES: "+f+"\n", a...)
+	}
+	for _, tc := range sf.TestCases {
+		if tc.Filename >= "test024" { // v4 blocks: not this library's schema version
+			continue
+		}
+		data, err := os.ReadFile(filepath.Join(dir, tc.Filename))
+		if err != nil {
+			fail("%s: %v", tc.Filename, err)
+			continue
+		}
+		expectFormatErr := false
+		for _, v := range tc.Validations {
+			if v.Result.Err != nil && v.Result.Err.Format != nil {
+				expectFormatErr = true
+			}
+		}
+		env, derr := ref.DecodeBiscuit(data)
+		var cerr error
+		if derr == nil {
+			cerr = ref.VerifyChain(env, root)
+		}
+		nChain++
+		valid := derr == nil && cerr == nil
+		if valid == expectFormatErr {
+			fail("%s: chain valid=%v (decode %v, chain %v) but samples.json expects format error=%v", tc.Filename, valid, derr, cerr, expectFormatErr)
+			continue
+		}
+		if !valid {
+			continue
+		}
+		tok, _, problems, err := ref.DecodeToken(data)
+		if err != nil || len(problems) > 0 {
+			fail("%s: independent decoder: %v %v", tc.Filename, err, problems)
+			continue
+		}
+		// content: block for block equal to the Datalog source recorded in samples.json
+		if len(tok.Blocks) == len(tc.Token) {
+			for i, b := range tc.Token {
+				pb, err := prs.Block(b.Code, nil)
+				if err != nil {
+					continue // source uses syntax this parser does not know
+				}
+				want, err := lower.BackBlock(pb)
+				if err != nil {
+					continue
+				}
+				got := tok.Blocks[i]
+				got.Context, want.Context = "", ""
+				// the source syntax "check if ..." does not record the head of a check query
+				for _, blk := range []*ref.Block{&got, &want} {
+					for ci := range blk.Checks {
+						for qi := range blk.Checks[ci].Queries {
+							blk.Checks[ci].Queries[qi].Head = ref.Pred{Name: "query"}
+						}
+					}
+				}
+				nContent++
+				if got.Canon() != want.Canon() {
+					fail("%s block %d content:\n  decoded: %s\n  source:  %s", tc.Filename, i, got.Canon(), want.Canon())
+				}
+			}
+		}
+		for name, v := range tc.Validations {
+			pa, err := prs.Authorizer(v.AuthorizerCode, nil)
+			if err != nil {
+				continue
+			}
+			az, err := lower.BackAuthorizer(pa)
+			if err != nil {
+				continue
+			}
+			out := ref.Authorize(tok, az, 4000)
+			nVerdict++
+			switch {
+			case v.Result.Ok != nil:
+				if out.Class != ref.VAllow {
+					fail("%s[%s]: reference %s (failed %v), samples.json Ok", tc.Filename, name, out.Class, out.FailedChecks)
+				}
+			case v.Result.Err != nil && v.Result.Err.FailedLogic != nil && v.Result.Err.FailedLogic.Unauthorized != nil:
+				u := v.Result.Err.FailedLogic.Unauthorized
+				var want []string
+				for _, c := range u.Checks {
+					for kind, id := range c {
+						if kind == "Authorizer" {
+							want = append(want, fmt.Sprintf("-1/%d", id.CheckID))
+						} else {
+							want = append(want, fmt.Sprintf("%d/%d", id.BlockID, id.CheckID))
+						}
+					}
+				}
+				sort.Strings(want)
+				var got []string
+				for _, c := range out.FailedChecks {
+					got = append(got, c.String())
+				}
+				sort.Strings(got)
+				if strings.Join(got, ",") != strings.Join(want, ",") {
+					fail("%s[%s]: reference failed checks %v, samples.json %v", tc.Filename, name, got, want)
+				}
+				if len(want) == 0 {
+					if _, deny := u.Policy["Deny"]; deny && out.Class != ref.VDeny {
+						fail("%s[%s]: reference %s, samples.json deny", tc.Filename, name, out.Class)
+					}
+				}
+			case v.Result.Err != nil && v.Result.Err.FailedLogic != nil && v.Result.Err.FailedLogic.InvalidBlockRule != nil:
+				// newer implementations reject such a rule statically; this schema version only fails when it fires
+				if !out.Uncertain && out.Class != ref.VCheckFail {
+					fail("%s[%s]: samples.json InvalidBlockRule but reference says %s", tc.Filename, name, out.Class)
+				}
+			}
+		}
+	}
+	fmt.Printf("reference model self-validation: %d chains, %d blocks decoded and compared with their source, %d verdicts compared; %d disagreements\n", nChain, nContent, nVerdict, bad)
+	if bad > 0 {
+		return 2
+	}
+	return 0
+}
